@@ -383,6 +383,38 @@ pub fn c14() -> Outcome {
             }
         }
     }
+    // "the per-constraint values and overall feasibility of any state are invariant under such sequences, while relaxed feasibility depends only on the currently active
+    // constraints": evaluate the same state before a relax, after it and after the restore - also for values inside the feasibility tolerance and just outside it
+    {
+        let vals = [0.0, 5e-7, -5e-7, 2e-6, -2e-6, 0.5];
+        for (ai, va) in vals.iter().enumerate() { for (bi, vb) in vals.iter().enumerate() {
+            n += 1; d.insert(vec![(true, 1000 + ai as u64), (true, bi as u64)]);
+            // c1: x0 <= 0 (inequality), c2: x1 == 0 (equality)
+            let i0 = inst(vec![dv(0, Kind::Continuous, None), dv(1, Kind::Continuous, None)], f_of(F::Constant(0.0)),
+                vec![con(1, Equality::LessThanOrEqualToZero, f_of(F::Linear(lin(&[(0, 1.0)], 0.0)))), con(2, Equality::EqualToZero, f_of(F::Linear(lin(&[(1, 1.0)], 0.0))))]);
+            let st = state(&[(0, *va), (1, *vb)]);
+            let h1 = *va < 1e-6; let h2 = vb.abs() < 1e-6;
+            let eval = |i: &Instance, what: &str| -> Result<(bool, Option<bool>, Vec<(u64, f64)>), String> {
+                let (sol, _) = i.evaluate(&st).map_err(|e| format!("evaluate {what} failed: {e}"))?;
+                let mut vs: Vec<(u64, f64)> = sol.evaluated_constraints.iter().map(|c| (c.id, c.evaluated_value)).collect(); vs.sort_by_key(|x| x.0);
+                Ok((sol.feasible, sol.feasible_relaxed, vs))
+            };
+            let base = match eval(&i0, "before") { Ok(x) => x, Err(e) => return Outcome { cases: n, distinct: d.len(), fail: Some(e) } };
+            if base.0 != (h1 && h2) { return Outcome { cases: n, distinct: d.len(), fail: Some(format!("values ({va}, {vb}): feasible={} before any relax, expected {}", base.0, h1 && h2)) }; }
+            for which in [1u64, 2] {
+                let mut i = i0.clone();
+                i.relax_constraint(which, "r".to_string(), HashMap::new()).unwrap();
+                let mid = match eval(&i, "after relax") { Ok(x) => x, Err(e) => return Outcome { cases: n, distinct: d.len(), fail: Some(e) } };
+                let rel = if which == 1 { h2 } else { h1 };
+                if mid.0 != base.0 || mid.2 != base.2 || mid.1 != Some(rel) {
+                    return Outcome { cases: n, distinct: d.len(), fail: Some(format!("values ({va}, {vb}): relaxing constraint {which} changed feasible {} -> {} or the constraint values {:?} -> {:?}, or feasible_relaxed is {:?} (expected {rel}: only the active constraint counts)", base.0, mid.0, base.2, mid.2, mid.1)) };
+                }
+                i.restore_constraint(which).unwrap();
+                let end = match eval(&i, "after restore") { Ok(x) => x, Err(e) => return Outcome { cases: n, distinct: d.len(), fail: Some(e) } };
+                if end.0 != base.0 || end.2 != base.2 || end.1 != base.1 { return Outcome { cases: n, distinct: d.len(), fail: Some(format!("values ({va}, {vb}): relax + restore of constraint {which} changed the evaluation: {base:?} -> {end:?}")) }; }
+            }
+        } }
+    }
     Outcome { cases: n, distinct: d.len(), fail: None }
 }
 
